@@ -36,11 +36,17 @@ LS_TOL = 1e-6       # value / notional, global least-squares refit of the non-lo
 RULE = ('seeded quote sets in three regimes cycled per case (positive rates -1 %..+12 %; EUR-2021 style negative rates: deposits/FRAs/'
         'short swaps below zero so that knot dfs exceed 1; positive rates with a forced futures-style FRA strip), 1..4 deposits, '
         '0..4 FRAs in the shapes none / chain / first FRA overlapping the last deposit (closed-form branch) / strip (FRA k starts '
-        '1..3 days before FRA k-1 matures), 0..8 swaps on a contiguous run of standard tenors, spot 0 or 2 days, every fixed-leg '
-        'frequency / day count used, on seeded valuation dates 2000-2036 (month ends, leap days, weekends); EVERY quote set is built '
+        '1..3 days before FRA k-1 matures), 0..8 swaps on a contiguous run of standard tenors, spot 0 or 2 days, conventions PER INSTRUMENT '
+        '(20 % of the sets uniform as before; 60 % every deposit / FRA its own day count and every Ibor swap and OIS its own fixed day count, '
+        'floating frequency and floating day count, with calendar / roll / date-generation rule / OIS payment lag drawn per curve; 20 % also '
+        'fixed frequency, calendar, roll, date-generation rule and payment lag per instrument), on seeded valuation dates 2000-2036 (month '
+        'ends, leap days, weekends); EVERY quote set is built '
         'with IborSingleCurve, OISCurve AND IborDualCurve (on a flat-forward OIS discount curve) for EVERY InterpTypes member; plus 17 '
         'fixed witness quote sets. One evaluation = one instrument repriced, one constructor checked for not modifying its inputs, one '
         'knot recomputed or one grid date compared with the model; all cases are distinct by construction; non-trivial = all. '
+        'Re-use / re-build: after the ~30 builds of a quote set the SAME objects, and then the objects with changed quotes (in place / deep '
+        'copies / the library shocker, emulated when it is not callable; futures strips through IborFuture.to_fra of re-used futures), are built '
+        'again with all three classes and compared with curves from freshly constructed instruments (knots to 1e-12, repricing errors to 1e-11). '
         'Not explored (stated): sparse swap grids (1Y then 30Y), forward-starting deposits outside the fixed witness.')
 
 
@@ -75,6 +81,7 @@ def run(ctx):
     from financepy.utils.day_count import DayCountTypes as DCT, DayCount
     from financepy.utils.global_types import SwapTypes
     from financepy.utils.error import FinError
+    from financepy.utils.calendar import CalendarTypes as CAL, BusDayAdjustTypes as BD, DateGenRuleTypes as DG
     from financepy.market.curves.interpolator import InterpTypes, Interpolator
     from financepy.products.rates.ibor_deposit import IborDeposit
     from financepy.products.rates.ibor_fra import IborFRA
@@ -85,6 +92,7 @@ def run(ctx):
     from financepy.products.rates.dual_curve import IborDualCurve
     Date(1, 1, 2199)
     rng = ctx.rng('main')
+    crng = ctx.rng('conventions')     # per-instrument conventions and quote bumps: a stream of its own, so dates / rates of a seed stay as they were
     local = [InterpTypes.FLAT_FWD_RATES, InterpTypes.LINEAR_FWD_RATES, InterpTypes.LINEAR_ZERO_RATES]
     hist = {}
 
@@ -100,6 +108,20 @@ def run(ctx):
     def dt_axis(v, d):
         """|t365 - tISDA| of date d: the time-axis gap of the leap-year defect"""
         return abs((d.excel_dt - v.excel_dt) / 365.0 - yf(DCT.ACT_ACT_ISDA, v, d))
+
+    def mk_depo(a, r):
+        return IborDeposit(a[0], a[1], r, a[2], 100.0, a[3], a[4])
+
+    def mk_fra(a, r):
+        return IborFRA(a[0], a[1], r, a[2], 100.0, True, a[3], a[4])
+
+    def mk_swap(a, r):
+        c = a[2]
+        return IborSwap(a[0], a[1], SwapTypes.PAY, r, c['ffreq'], c['fdc'], 1000000.0, 0.0, c['lfreq'], c['ldc'], c['cal'], c['bd'], c['dg'])
+
+    def mk_ois(a, r):
+        c = a[2]
+        return OIS(a[0], a[1], SwapTypes.PAY, r, c['ffreq'], c['fdc'], 1000000.0, c['lag'], 0.0, c['lfreq'], c['ldc'], c['cal'], c['bd'], c['dg'])
 
     def quotes(regime):
         d, m, y = D.interesting_dates(rng, 1, 2000, 2036)[0]
@@ -118,12 +140,49 @@ def run(ctx):
             return max(-0.012, min(0.13, level + amp * (1.0 - math.exp(-t / 5.0)) + rng.uniform(-0.0008, 0.0008) * (0.25 if regime == 'neg' else 1.0)))
         dcs = [DCT.ACT_360, DCT.ACT_365F, DCT.THIRTY_E_360, DCT.ACT_ACT_ISDA, DCT.THIRTY_360_BOND]
         depo_dc = rng.choice(dcs[:3])
+        # conventions PER INSTRUMENT (the property quantifies over "all day-count/frequency/calendar conventions of the instruments"):
+        #   uniform    one deposit/FRA day count, one fixed frequency / day count, class defaults elsewhere (the generator as it was)
+        #   mixed      every deposit / FRA its own day count; every swap (Ibor AND OIS, independently) its own fixed day count, floating
+        #              frequency and floating day count; calendar / roll / date-generation rule / OIS payment lag drawn once per curve
+        #   mixed-all  additionally fixed frequency, calendar, roll, date-generation rule and OIS payment lag per instrument (IborSingleCurve /
+        #              IborDualCurve reject swaps that are not on one coupon grid: counted as rejected-by-validation; OISCurve accepts them)
+        cmode = crng.choice(['uniform', 'mixed', 'mixed', 'mixed', 'mixed-all'])
+        cals = [CAL.WEEKEND, CAL.TARGET, CAL.UNITED_STATES, CAL.UNITED_KINGDOM]
+        freqs = [F.ANNUAL, F.SEMI_ANNUAL, F.QUARTERLY]
+        case_cal, case_bd, case_dg, case_lag = crng.choice(cals), crng.choice([BD.FOLLOWING, BD.MODIFIED_FOLLOWING]), \
+            crng.choice([DG.BACKWARD, DG.BACKWARD, DG.FORWARD]), crng.choice([0, 0, 1, 2])
+
+        def mm_conv():
+            """(day count, calendar, roll) of a deposit / FRA"""
+            if cmode == 'uniform':
+                return (depo_dc, CAL.WEEKEND, BD.MODIFIED_FOLLOWING)
+            if cmode == 'mixed':
+                return (crng.choice(dcs[:4]), CAL.WEEKEND, BD.MODIFIED_FOLLOWING)
+            return (crng.choice(dcs[:4]), crng.choice(cals), crng.choice([BD.FOLLOWING, BD.MODIFIED_FOLLOWING]))
+
+        def swap_conv(is_ois):
+            c = {'ffreq': fr, 'fdc': sdc, 'lfreq': F.ANNUAL if is_ois else F.QUARTERLY, 'ldc': DCT.THIRTY_E_360, 'cal': CAL.WEEKEND,
+                 'bd': BD.FOLLOWING, 'dg': DG.BACKWARD, 'lag': 0}
+            if cmode == 'uniform':
+                return c
+            c.update(fdc=crng.choice(dcs), lfreq=crng.choice(freqs), ldc=crng.choice(dcs), cal=case_cal, bd=case_bd, dg=case_dg,
+                     lag=case_lag if is_ois else 0)
+            if cmode == 'mixed-all':
+                c.update(ffreq=crng.choice(freqs), cal=crng.choice(cals), bd=crng.choice([BD.FOLLOWING, BD.MODIFIED_FOLLOWING]),
+                         dg=crng.choice([DG.BACKWARD, DG.BACKWARD, DG.FORWARD]), lag=crng.choice([0, 0, 1, 2]) if is_ois else 0)
+            return c
         ten = ['1D', '1W', '2W', '1M', '2M', '3M', '6M', '9M', '12M']
         nd = rng.choice([1, 2, 3, 4])
         i0 = sorted(rng.sample(range(len(ten) - (3 if regime == 'strip' else 0)), nd))
-        depos = [IborDeposit(settle, ten[i], rate(0.3), depo_dc) for i in i0]
+        rec = {'deposits': [], 'fras': [], 'swaps': [], 'ois': []}      # constructor arguments: the SAME instrument can be made afresh with another quote
+        depos = []
+        for i in i0:
+            a_ = (settle, ten[i]) + mm_conv()
+            depos.append(mk_depo(a_, rate(0.3)))
+            rec['deposits'].append(a_)
         # deposits may collide after business-day adjustment
-        depos = [x for k, x in enumerate(depos) if k == 0 or x.maturity_dt > depos[k - 1].maturity_dt]
+        keep = [k for k, x in enumerate(depos) if k == 0 or x.maturity_dt > depos[k - 1].maturity_dt]
+        depos, rec['deposits'] = [depos[k] for k in keep], [rec['deposits'][k] for k in keep]
         last = depos[-1].maturity_dt
         fras = []
         # FRA shapes: none / chain (each starts where the previous ends) / first FRA overlapping the last deposit (closed-form
@@ -139,34 +198,47 @@ def run(ctx):
         for _ in range(nf):
             if start.excel_dt < settle.excel_dt:
                 start = last
-            f_ = IborFRA(start, '3M', rate(1.0), depo_dc)
+            a_ = (start, '3M') + mm_conv()
+            f_ = mk_fra(a_, rate(1.0))
             if f_.maturity_dt <= last:
                 break
             fras.append(f_)
+            rec['fras'].append(a_)
             last = f_.maturity_dt
             start = f_.maturity_dt.add_days(-rng.choice([1, 2, 3])) if shape == 'strip' else f_.maturity_dt
         sw_t = ['1Y', '2Y', '3Y', '4Y', '5Y', '7Y', '10Y', '15Y', '20Y', '30Y']
         ns = rng.choice([0, 1, 2, 3, 4, 6]) if regime == 'pos' else rng.choice([2, 3, 4, 6, 8])
         fr = rng.choice([F.ANNUAL, F.SEMI_ANNUAL, F.QUARTERLY])
         sdc = rng.choice(dcs)
-        swaps, sw_ten = [], []
+        swaps, sw_ten, oswaps = [], [], []
         # market-like grid: a contiguous run of standard tenors (sparse grids such as 1Y then 30Y make the library's
         # secant search, started from the previous knot's df, diverge to NaN — observed, see notes/C01.md; not explored here)
         i_start = rng.choice([0, 0, 1])
         while i_start < len(sw_t) - 1 and settle.add_tenor(sw_t[i_start]).excel_dt <= last.excel_dt + 5:
             i_start += 1
         for i in range(i_start, min(len(sw_t), i_start + ns)):
-            s_ = IborSwap(settle, sw_t[i], SwapTypes.PAY, rate(float(sw_t[i][:-1])), fr, sdc)
+            a_ = (settle, sw_t[i], swap_conv(False))
+            s_ = mk_swap(a_, rate(float(sw_t[i][:-1])))
             if s_.fixed_leg.payment_dts[-1] > last:
                 swaps.append(s_)
                 sw_ten.append(sw_t[i])
+                rec['swaps'].append(a_)
                 last = s_.fixed_leg.payment_dts[-1]
-        desc = {'valuation': ds(v), 'spot_days': spot, 'deposit_dc': depo_dc.name, 'regime': regime, 'fra_shape': shape,
-                'deposits': [[ds(x.start_dt), ds(x.maturity_dt), x.deposit_rate] for x in depos],
-                'fras': [[ds(x.start_dt), ds(x.maturity_dt), x.fra_rate] for x in fras],
-                'swaps': [[ds(x.effective_dt), ds(x.maturity_dt), x.fixed_leg.cpn] for x in swaps],
+        # the OIS of the same tenors and quotes, with conventions of their own
+        for t_, x in zip(sw_ten, swaps):
+            a_ = (settle, t_, swap_conv(True))
+            oswaps.append(mk_ois(a_, x.fixed_leg.cpn))
+            rec['ois'].append(a_)
+
+        def cname(c):
+            return {k_: (v_ if isinstance(v_, int) else v_.name) for k_, v_ in c.items()}
+        desc = {'valuation': ds(v), 'spot_days': spot, 'deposit_dc': depo_dc.name, 'regime': regime, 'fra_shape': shape, 'conventions': cmode,
+                'deposits': [[ds(x.start_dt), ds(x.maturity_dt), x.deposit_rate, x.dc_type.name, a_[3].name, a_[4].name] for x, a_ in zip(depos, rec['deposits'])],
+                'fras': [[ds(x.start_dt), ds(x.maturity_dt), x.fra_rate, x.dc_type.name, a_[3].name, a_[4].name] for x, a_ in zip(fras, rec['fras'])],
+                'swaps': [[ds(x.effective_dt), ds(x.maturity_dt), x.fixed_leg.cpn, cname(a_[2])] for x, a_ in zip(swaps, rec['swaps'])],
+                'ois': [[ds(x.effective_dt), ds(x.maturity_dt), x.fixed_leg.cpn, cname(a_[2])] for x, a_ in zip(oswaps, rec['ois'])],
                 'swap_freq': fr.name, 'swap_dc': sdc.name}
-        return v, settle, depos, fras, swaps, desc, (fr, sdc, sw_ten)
+        return v, settle, depos, fras, swaps, oswaps, rec, desc
 
     ops, impl, metas = [], [], []
 
@@ -423,6 +495,21 @@ def run(ctx):
                     # global refit stops at scipy least_squares' default tolerances: repricing only to ~1e-5 of notional
                     if math.isfinite(e) and abs(e) <= 1e-4:
                         finding = 'C01/least-squares-refit-tolerance'
+                    elif (math.isfinite(e) and leap and gap > 0.0 and tag in ('deposit', 'fra') and abs(e) <= 2.0 * rate_scale * gap + 1e-12):
+                        # the two known defects together: the refit starts from the 1-d bootstrap, whose closed-form knots carry the
+                        # leap-year time-axis error (up to ~2.7e-4 for a 12M deposit at 10 %), and - deposits being weighted by 1/days in
+                        # its residual vector - stops without repairing it.  Excused only if (i) the size is what the time axis explains
+                        # (the leap-time-axis bound) and (ii) with the maturity read at the knot's OWN time (maturity - curve date)/365 the
+                        # instrument is within the least-squares-refit-tolerance bound (1e-4): nothing else is left.
+                        try:
+                            a_ = yf(obj.dc_type, obj.start_dt, obj.maturity_dt)
+                            r_ = obj.deposit_rate if tag == 'deposit' else obj.fra_rate
+                            ratio = (float(np.asarray(curve.df(obj.start_dt)).ravel()[0])
+                                     / float(np.asarray(curve.df_t((obj.maturity_dt.excel_dt - v.excel_dt) / 365.0)).ravel()[0]))
+                            if abs(ratio - (1.0 + a_ * r_)) <= 1e-4:
+                                finding = 'C01/leap-time-axis'
+                        except Exception:  # noqa: BLE001
+                            pass
                 elif (tag == 'fra' and curve._interp_type == InterpTypes.LINEAR_ONFWD_RATES and j == len(instr) - 1 and off >= 0
                       and math.isfinite(e) and abs(e) <= 2e-2
                       and (stale_fit_only(curve, fn, tol)
@@ -473,13 +560,169 @@ def run(ctx):
                 metas.append(desc | {'curve': kind, 'query': ds(q)})
         ctx.count(f'{kind}/df-grid', len(grid))
 
+
+    # ------------------------------------------------------------------ re-use / re-build oracles
+    # "A curve bootstrapped from any admissible set ..." does not depend on what the instrument OBJECTS went through before: a curve
+    # built from objects that were already used for other curves (other schemes / classes), or whose quotes were changed since (in place,
+    # on deep copies, through the library's own shocker), must be the curve built from freshly constructed instruments with the same
+    # quotes - same knots, and every instrument repriced exactly as there.
+    def set_quote(x, r):
+        if isinstance(x, IborDeposit):
+            x.deposit_rate = r
+        elif isinstance(x, IborFRA):
+            x.fra_rate = r
+        elif isinstance(x, IborSwap):
+            x.set_fixed_rate(r)
+        else:                                   # OIS has no set_fixed_rate: what IborSwap.set_fixed_rate does
+            x.fixed_leg.cpn = r
+            x.fixed_leg.generate_payments()
+
+    def get_quote(x):
+        return x.deposit_rate if isinstance(x, IborDeposit) else x.fra_rate if isinstance(x, IborFRA) else x.fixed_leg.cpn
+
+    def build_all(v, dl, fl, sl, ol, it):
+        """the three curve classes from the given objects; a refusal / raise is recorded by its kind (both sides must then agree)"""
+        out = {}
+
+        def attempt(f, *a):
+            try:
+                return quiet(f, *a)
+            except FinError as ex:
+                return 'FinError: ' + str(getattr(ex, '_message', ex))[:40]
+            except Exception as ex:  # noqa: BLE001
+                return 'E:' + type(ex).__name__
+        out['IborSingleCurve'] = attempt(IborSingleCurve, v, list(dl), list(fl), list(sl), it)
+        out['OISCurve'] = attempt(OISCurve, v, list(dl), list(fl), list(ol), it)
+        disc = out['OISCurve'] if it == InterpTypes.FLAT_FWD_RATES else attempt(OISCurve, v, list(dl), list(fl), list(ol), InterpTypes.FLAT_FWD_RATES)
+        out['IborDualCurve'] = attempt(IborDualCurve, v, disc, list(dl), list(fl), list(sl), it) if not isinstance(disc, str) else 'no-discount-curve'
+        return out, disc
+
+    def errors_on(kind, curve, disc, v, dl, fl, sl, ol):
+        es = []
+        for x in dl:
+            es.append(('deposit', x.value(v, curve) / x.notional - 1.0))
+        for x in fl:
+            es.append(('fra', (x.value(v, disc, curve) if kind == 'IborDualCurve' else x.value(v, curve)) / x.notional))
+        if kind == 'OISCurve':
+            for x in ol:
+                es.append(('swap', x.value(v, curve) / x.fixed_leg.notional))
+        else:
+            for x in sl:
+                es.append(('swap', (x.value(v, disc, curve, None) if kind == 'IborDualCurve' else x.value(v, curve, curve, None)) / x.fixed_leg.notional))
+        return es
+
+    def compare_rebuild(clause, what, me, v, used, fresh, it):
+        """used / fresh: (deposits, fras, swaps, ois) - objects with a history vs freshly constructed ones carrying the same quotes"""
+        ca, da = build_all(v, *used, it)
+        cb, db = build_all(v, *fresh, it)
+        for kind in ('IborSingleCurve', 'OISCurve', 'IborDualCurve'):
+            a_, b_ = ca[kind], cb[kind]
+            ctx.count(f'rebuild/{clause}', 1)
+            if isinstance(a_, str) or isinstance(b_, str):
+                if not (isinstance(a_, str) and isinstance(b_, str) and a_ == b_):
+                    ctx.violation(f'{kind}: {what}: one build is refused / raises, the other is not',
+                                  me | {'curve': kind, 'interp': it.name, 'used_objects': a_ if isinstance(a_, str) else 'built', 'fresh_objects': b_ if isinstance(b_, str) else 'built'},
+                                  clause=clause)
+                else:
+                    tick(f'rebuild/both-sides-{a_[:8]}')
+                continue
+            ta, tb, fa, fb = list(a_._times), list(b_._times), list(a_._dfs), list(b_._dfs)
+            bad = None
+            if len(ta) != len(tb) or any(not close(x_, y_, rtol=0, atol=1e-15) for x_, y_ in zip(ta, tb)):
+                bad = {'knot_times_used': [float(x_) for x_ in ta], 'knot_times_fresh': [float(x_) for x_ in tb]}
+            else:
+                k_ = next((i_ for i_, (x_, y_) in enumerate(zip(fa, fb)) if not close(x_, y_, rtol=1e-12, atol=0)), None)
+                if k_ is not None:
+                    bad = {'knot': k_, 'knot_time': float(ta[k_]), 'df_used_objects': float(fa[k_]), 'df_fresh_objects': float(fb[k_])}
+            try:
+                ea = errors_on(kind, a_, da, v, *used)
+                eb = errors_on(kind, b_, db, v, *fresh)
+            except Exception as ex:  # noqa: BLE001
+                ea = eb = []
+                bad = (bad or {}) | {'valuation_raised': type(ex).__name__}
+            worst = None
+            for j_, ((tag, x_), (_, y_)) in enumerate(zip(ea, eb)):
+                if not (abs(x_ - y_) <= 1e-11):     # NaN-safe
+                    if worst is None or not (abs(x_ - y_) <= abs(worst[2] - worst[3])):
+                        worst = (tag, j_, float(x_), float(y_))
+            if bad is not None or worst is not None:
+                ctx.violation(f'{kind}: {what}: the curve / the repricing differs from the curve built from fresh instruments with the same quotes',
+                              me | {'curve': kind, 'interp': it.name} | (bad or {})
+                              | ({'instrument': worst[0], 'instrument_index': worst[1], 'error_over_notional_on_rebuilt_curve': worst[2],
+                                  'error_over_notional_on_fresh_curve': worst[3]} if worst else {}), clause=clause)
+
+    shocker_state = {'callable': None}
+
+    def rebuild_oracles(case, v, depos, fras, swaps, oswaps, rec, desc):
+        local_its = [InterpTypes.FLAT_FWD_RATES, InterpTypes.LINEAR_FWD_RATES, InterpTypes.LINEAR_ZERO_RATES]
+        it_r = crng.choice(local_its + [InterpTypes.FLAT_FWD_RATES])
+        used = (depos, fras, swaps, oswaps)
+        quotes0 = [[get_quote(x) for x in l_] for l_ in used]
+
+        def fresh_with(qs):
+            return ([mk_depo(a_, r_) for a_, r_ in zip(rec['deposits'], qs[0])], [mk_fra(a_, r_) for a_, r_ in zip(rec['fras'], qs[1])],
+                    [mk_swap(a_, r_) for a_, r_ in zip(rec['swaps'], qs[2])], [mk_ois(a_, r_) for a_, r_ in zip(rec['ois'], qs[3])])
+        # (1) the same objects, after ~30 builds with every scheme and class, against fresh ones
+        compare_rebuild('rebuild-same-objects', 'instrument objects already used for curves of other schemes / classes', desc | {'history': 'same objects re-used'},
+                        v, used, fresh_with(quotes0), it_r)
+        # (2) quotes changed between two builds
+        def bump(r_):
+            return r_ + crng.choice([0.0001, -0.0001, 0.0025, -0.0025, crng.uniform(-0.005, 0.005)])
+        newq = []
+        for l_ in quotes0:
+            forced = crng.randrange(len(l_)) if l_ else -1
+            newq.append([bump(r_) if (k_ == forced or crng.random() < 0.7) else r_ for k_, r_ in enumerate(l_)])
+        newq[3] = list(newq[2])          # the OIS carry the swaps' quotes
+        mode = ['in-place', 'deep-copy', 'library-shocker'][case % 3]
+        me = desc | {'history': f'quotes changed {mode} after the first builds', 'old_quotes': quotes0, 'new_quotes': newq}
+        if mode == 'library-shocker':
+            # IborSingleCurveParShocker deep-copies the benchmarks of a base curve and bumps them (IborSingleCurve only)
+            done = False
+            if shocker_state['callable'] is not False:
+                try:
+                    from financepy.products.rates.ibor_single_curve_par_shocker import IborSingleCurveParShocker
+                    base = quiet(IborSingleCurve, v, list(depos), list(fras), list(swaps), it_r)
+                    sh = quiet(IborSingleCurveParShocker, base)
+                    shocker_state['callable'] = True
+                    ub = list(base.used_deposits) + list(base.used_fras) + list(base.used_swaps)
+                    off_ = len(base.used_deposits) - len(depos)
+                    bumps = [0.0] * off_ + [n_ - o_ for o_, n_ in zip(quotes0[0] + quotes0[1] + quotes0[2], newq[0] + newq[1] + newq[2])]
+                    if len(bumps) == sh.n_benchmarks() == len(ub):
+                        bc = quiet(sh.apply_composite_bump, bumps)
+                        fr_ = fresh_with(newq)
+                        fc = quiet(IborSingleCurve, v, list(fr_[0]), list(fr_[1]), list(fr_[2]), it_r)
+                        ctx.count('rebuild/library-shocker', 1)
+                        if len(bc._times) != len(fc._times) or any(not close(x_, y_, rtol=1e-12, atol=1e-15) for x_, y_ in zip(list(bc._times) + list(bc._dfs), list(fc._times) + list(fc._dfs))):
+                            ctx.violation('IborSingleCurveParShocker: the bumped curve is not the curve built from fresh instruments with the bumped quotes',
+                                          me | {'curve': 'IborSingleCurve', 'interp': it_r.name, 'dfs_shocker': [float(x_) for x_ in bc._dfs], 'dfs_fresh': [float(x_) for x_ in fc._dfs]},
+                                          clause='rebuild-after-quote-change')
+                        done = True
+                except FinError:
+                    tick('rebuild/shocker-rejected-by-validation')
+                    done = True
+                except Exception as ex:  # noqa: BLE001
+                    # not callable in this environment (ibor_benchmarks_report uses a pandas API that is not there): emulate it below
+                    shocker_state['callable'] = False
+                    tick('rebuild/library-shocker-not-callable: ' + type(ex).__name__)
+            if not done:
+                tick('rebuild/shocker-emulated (deepcopy, += bump, set_fixed_rate)')
+            mode = 'deep-copy'
+        if mode == 'deep-copy':
+            objs = tuple(copy.deepcopy(list(l_)) for l_ in used)
+        else:
+            objs = used
+        for l_, q_ in zip(objs, newq):
+            for x, r_ in zip(l_, q_):
+                set_quote(x, r_)
+        compare_rebuild('rebuild-after-quote-change', f'quotes changed ({me["history"]})', me, v, objs, fresh_with(newq), it_r)
+
     ncase = 15 if ctx.quick() else 150
     all_its = list(InterpTypes)
     for case in range(ncase):
         regime = ['pos', 'neg', 'strip'][case % 3]
         for _try in range(20):
             try:
-                v, settle, depos, fras, swaps, desc, (fr, sdc, sw_ten) = quotes(regime)
+                v, settle, depos, fras, swaps, oswaps, rec, desc = quotes(regime)
                 break
             except FinError:
                 tick('quotes/instrument-constructor-rejected')   # e.g. a start date moved past the maturity by the calendar
@@ -494,7 +737,11 @@ def run(ctx):
         # no swaps and the first deposit settles after the curve date: _validate_inputs adds its bridging synthetic deposit only
         # when swaps are present, so the bootstrap asks a one-knot curve for df(settlement) (out-of-bounds read, C02/single-knot-curve)
         blanket = 'C01/spot-lag-without-swaps' if (len(swaps) == 0 and depos[0].start_dt > v) else None
-        oswaps = [OIS(settle, t_, SwapTypes.PAY, x.fixed_leg.cpn, fr, sdc) for t_, x in zip(sw_ten, swaps)]
+        tick(f'quotes/conventions={desc["conventions"]}')
+        if len({x.float_leg.dc_type for x in oswaps}) > 1:
+            tick('quotes/ois-mixed-floating-day-counts')
+        if len({x.float_leg.dc_type for x in swaps}) > 1:
+            tick('quotes/ibor-swaps-mixed-floating-day-counts')
 
         def unchanged(kind, passed, original, d2_):
             """the constructor must not modify the caller's instrument lists"""
@@ -604,6 +851,11 @@ def run(ctx):
                 check_curve('IborDualCurve' if bootstrap else 'IborDualCurve(non-local sequential)', dc_, v, instr, d2, blanket=blanket)
                 if it in local and not blanket:
                     tie_curve('IborDualCurve', dc_, v, disc, depos, fras, swaps, d2, solved_ids)
+        if not blanket:
+            try:
+                rebuild_oracles(case, v, depos, fras, swaps, oswaps, rec, desc)
+            except FinError:
+                tick('rebuild/fresh-instrument-constructor-rejected')
     # ---- fixed quote sets: the witnesses of the structural findings go through the same oracle on every run
     vw = Date(14, 6, 2021)
     sw_ = vw.add_weekdays(2)
@@ -695,6 +947,39 @@ def run(ctx):
             ctx.violation('IborFuture.convexity is negative or not finite although 0 <= t1 < t2', mef | {'convexity': cx_, 't1': t1_, 't2': t2_},
                           clause='futures-convexity-sign')
         ctx.count('model/futures-kernels', 5)
+    # ---- futures strips re-used: the SAME IborFuture objects give the FRAs of a second curve after the prices (and the other quotes) moved
+    for k_ in range(6 if ctx.quick() else 60):
+        d_, m_, y_ = D.interesting_dates(frng, 1, 2000, 2036)[0]
+        today = Date(d_, m_, y_)
+        nfut = frng.choice([2, 3, 4])
+        base = frng.uniform(-0.004, 0.07)
+        q0 = {'dep': [base, base + 0.0005], 'px': [100.0 - 100.0 * (base + 0.001 * (i_ + 1) + frng.uniform(-0.0004, 0.0004)) for i_ in range(nfut)],
+              'cvx': [frng.choice([0.0, 0.01 * (i_ + 1), -0.01 * (i_ + 1)]) for i_ in range(nfut)], 'sw': [base + 0.005, base + 0.006]}
+        q1 = {'dep': [r_ + frng.choice([0.0025, -0.0025, 0.0001]) for r_ in q0['dep']], 'px': [p_ + frng.choice([0.25, -0.25, 0.01, -0.125]) for p_ in q0['px']],
+              'cvx': [c_ * frng.choice([1.0, 2.0, -1.0]) for c_ in q0['cvx']], 'sw': [r_ + frng.choice([0.0025, -0.0025]) for r_ in q0['sw']]}
+        ddc_ = frng.choice([DCT.ACT_360, DCT.ACT_365F])
+
+        def fut_set(q_, futs=None):
+            futs = futs or [IborFuture(today, i_ + 1, '3M', ddc_) for i_ in range(nfut)]
+            return futs, ([IborDeposit(today, t_, r_, ddc_) for t_, r_ in zip(('1W', '2W'), q_['dep'])],
+                          [f_.to_fra(p_, c_) for f_, p_, c_ in zip(futs, q_['px'], q_['cvx'])],
+                          [IborSwap(today, t_, SwapTypes.PAY, r_, F.SEMI_ANNUAL, DCT.THIRTY_E_360) for t_, r_ in zip(('2Y', '3Y'), q_['sw'])],
+                          [OIS(today, t_, SwapTypes.PAY, r_, F.ANNUAL, DCT.ACT_360) for t_, r_ in zip(('2Y', '3Y'), q_['sw'])])
+        mef = {'valuation': ds(today), 'futures': nfut, 'old_quotes': q0, 'new_quotes': q1, 'deposit_dc': ddc_.name,
+               'history': 'IborFuture objects re-used: to_fra(old price) -> curves built -> to_fra(new price) from the same objects, deposits / swaps re-quoted in place'}
+        try:
+            futs_, used_ = fut_set(q0)
+            build_all(today, *used_, InterpTypes.FLAT_FWD_RATES)                # first builds (fills whatever the objects remember)
+            for x, r_ in zip(used_[0], q1['dep']):
+                set_quote(x, r_)
+            for l_ in (used_[2], used_[3]):
+                for x, r_ in zip(l_, q1['sw']):
+                    set_quote(x, r_)
+            used2 = (used_[0], [f_.to_fra(p_, c_) for f_, p_, c_ in zip(futs_, q1['px'], q1['cvx'])], used_[2], used_[3])
+            compare_rebuild('rebuild-after-quote-change', 'futures strip re-quoted', mef, today, used2, fut_set(q1)[1],
+                            frng.choice([InterpTypes.FLAT_FWD_RATES, InterpTypes.LINEAR_ZERO_RATES]))
+        except FinError:
+            tick('rebuild/futures-set-rejected-by-constructor')
     # ---- Model/C01, Gen/RatesF and the C06 swap objective through Driver/C01
     if ops1 and drivers_ok:
         try:
@@ -764,10 +1049,10 @@ def replay(ctx, path):
     print('replay:', v['what'], '| clause', v.get('clause'))
     vd = Dd(c['valuation'])
     ddc = DCT[c.get('deposit_dc', 'ACT_360')]
-    depos = [IborDeposit(Dd(a), Dd(b), r, ddc) for a, b, r in c.get('deposits', [])]
-    fras = [IborFRA(Dd(a), Dd(b), r, ddc) for a, b, r in c.get('fras', [])]
+    depos = [IborDeposit(Dd(a), Dd(b), r, DCT[x_[0]] if x_ else ddc) for a, b, r, *x_ in c.get('deposits', [])]
+    fras = [IborFRA(Dd(a), Dd(b), r, DCT[x_[0]] if x_ else ddc) for a, b, r, *x_ in c.get('fras', [])]
     swaps = [IborSwap(Dd(a), Dd(b), SwapTypes.PAY, r, F[c.get('swap_freq', 'ANNUAL')], DCT[c.get('swap_dc', 'THIRTY_E_360')])
-             for a, b, r in c.get('swaps', [])]
+             for a, b, r, *x_ in c.get('swaps', [])]
     curve = quiet(IborSingleCurve, vd, depos, fras, swaps, InterpTypes[c.get('interp', 'FLAT_FWD_RATES')])
     for x in depos:
         print(f'  deposit {x.maturity_dt}: value/notional - 1 = {x.value(vd, curve) / x.notional - 1.0:.3e}')
